@@ -360,19 +360,88 @@ enum Job {
     Quant(usize),
 }
 
+/// One population beyond 2^32 (the statement has no upper bound on n): the binomial weights
+/// are built by the ratio recurrence outwards from the mode until they fall below 1e-22 of
+/// the mode's and normalised, so the sum over the window is the exact coverage up to ~1e-15;
+/// the window is +-9.5 standard deviations. Every count in the window goes through the real
+/// `proportion::ci`, the three kinds one after the other.
+const HUGE_N: usize = (1 << 32) + (1 << 20) + 3;
+const HUGE_P: [f64; 2] = [0.3, 0.9];
+
+fn judge_prop_huge(n: usize, p: f64, s: &mut Sink) {
+    let nf = n as f64;
+    let mode = ((nf + 1.0) * p).floor() as usize;
+    let q = 1.0 - p;
+    let mut up = vec![1.0f64]; // weights at mode, mode+1, ...
+    let mut k = mode;
+    while *up.last().unwrap() > 1e-22 && k < n {
+        let w = up.last().unwrap() * ((n - k) as f64 / (k + 1) as f64) * (p / q);
+        up.push(w);
+        k += 1;
+    }
+    let mut down = vec![]; // weights at mode-1, mode-2, ...
+    let mut w = 1.0f64;
+    let mut k = mode;
+    while w > 1e-22 && k > 0 {
+        w *= (k as f64 / (n - k + 1) as f64) * (q / p);
+        down.push(w);
+        k -= 1;
+    }
+    let lo_k = mode - down.len();
+    let weights: Vec<f64> = down.iter().rev().cloned().chain(up.iter().cloned()).collect();
+    let total = kahan_sum(&weights);
+    for &level in LEVELS.iter() {
+        let mut covered: [Vec<f64>; 3] = [vec![], vec![], vec![]];
+        for (i, w) in weights.iter().enumerate() {
+            let k = lo_k + i;
+            for (ki, kind) in KINDS.iter().enumerate() {
+                s.calls += 1;
+                let r = mc::catch(std::panic::AssertUnwindSafe(|| proportion::ci(conf(*kind, level), n, k)));
+                let inside = match r {
+                    Ok(Ok(Interval::TwoSided(a, b))) => a <= p && p <= b,
+                    Ok(Ok(Interval::UpperOneSided(a))) => a <= p,
+                    Ok(Ok(Interval::LowerOneSided(b))) => p <= b,
+                    _ => false,
+                };
+                if inside {
+                    covered[ki].push(*w);
+                }
+            }
+        }
+        for (ki, kind) in KINDS.iter().enumerate() {
+            s.evals += 1;
+            let c = kahan_sum(&covered[ki]) / total;
+            let slack = PROP_POINT[ki][LEVELS.iter().position(|l| *l == level).unwrap()];
+            s.outcome(&("prop-huge", *kind, level.to_bits()));
+            s.max("prop_huge_abs_dev", (c - level).abs(), || format!("n={n} p={p} {} {level}", kind.name()));
+            if !(c - level >= -slack) {
+                s.violation(
+                    format!("proportion/huge-population-coverage-below-slack/{}/{}", kind.name(), level),
+                    format!("n={n} p={p} {} {level}: exact coverage over the {} outcomes within 9.5 sd of np is {c:.5}", kind.name(), weights.len()),
+                    json!({"check":"proportion-huge","n":n,"p":p,"kind":kind,"level":level}),
+                );
+            }
+        }
+    }
+}
+
 fn run(tier: Tier) -> Sink {
     let points = 2001;
     let mut jobs: Vec<Job> = prop_ns(tier).into_iter().rev().map(|n| Job::Prop(n, points)).collect();
     jobs.extend(quant_ns(tier).into_iter().rev().map(Job::Quant));
-    par_judge(&jobs, |j, s| match j {
+    let s = par_judge(&jobs, |j, s| match j {
         Job::Prop(n, pts) => judge_prop(*n, *pts, s),
         Job::Quant(n) => judge_quant(*n, s),
-    })
+    });
+    let h = par_judge(&HUGE_P, |p, s| judge_prop_huge(HUGE_N, *p, s));
+    s.merge(h)
 }
 
 fn replay_case(case: &Value, s: &mut Sink) {
     let n = case["n"].as_u64().unwrap() as usize;
-    if case["check"] == "proportion" {
+    if case["check"] == "proportion-huge" {
+        judge_prop_huge(n, case["p"].as_f64().unwrap(), s)
+    } else if case["check"] == "proportion" {
         judge_prop(n, case["points"].as_u64().unwrap_or(2001) as usize, s)
     } else {
         judge_quant(n, s)
@@ -396,7 +465,7 @@ fn main() {
     s.sample(json!({"check":"proportion","n":100,"kind":"Two","level":0.95,"what":"C(n,p) = sum_k pmf(k;n,p) [lo_k <= p <= hi_k] over all 101 outcomes, for every p of the grid in [0.1, 0.9]"}));
     s.sample(json!({"check":"quantile","n":200,"kind":"Upper","level":0.9,"what":"P(B >= lo+1), B~Bin(200,q), ranks from ci_indices, q = i/193 with nq, n(1-q) >= 10"}));
     rep.note("slack_table", json!({"PROP_POINT":PROP_POINT,"PROP_AVG":PROP_AVG,"QUANT_ATOMS":QUANT_ATOMS,"QUANT_AVG":QUANT_AVG,"levels":LEVELS,"kinds":["two-sided","upper","lower"]}));
-    rep.rule = format!("proportion: n in {:?}, all outcomes k=0..n through proportion::ci (Err = no cover), {} p values in [10/n, 1-10/n], levels {:?} x 3 kinds; quantile: n in {:?}, q = i/193 with nq,n(1-q)>=10, ranks from quantile::ci_indices; coverage is an exact sum over all outcomes; distinct by (n, kind, level, coverage statistic)", prop_ns(tier), 2001, LEVELS, quant_ns(tier));
+    rep.rule = format!("proportion: n in {:?}, all outcomes k=0..n through proportion::ci (Err = no cover), {} p values in [10/n, 1-10/n], levels {:?} x 3 kinds, plus the population 2^32+2^20+3 at p in {{0.3, 0.9}} summed over all outcomes within 9.5 sd of np; quantile: n in {:?}, q = i/193 with nq,n(1-q)>=10 and the extreme grid q n = 1/2..9 1/2 (coverage of whatever is returned), ranks from quantile::ci_indices; coverage is an exact sum over all outcomes; distinct by (n, kind, level, coverage statistic)", prop_ns(tier), 2001, LEVELS, quant_ns(tier));
     rep.assume("slack constants are properties of the textbook Wilson method computed by the oracle (c12 calibrate) with +25% margin; they are frozen in c12_*.in and never derived from the implementation");
     rep.assume("binomial pmf from the oracle's recurrence, self-tested against mpmath");
     rep.require(s.distinct() >= 20, "fewer than 20 distinct coverage statistics: vacuous");
